@@ -9,6 +9,58 @@ Template bytecode as documented in library/core/src/fmt/mod.rs of the pinned nig
 from .core import op_local
 
 
+ZERO_PAD_FLAG = 1 << 24
+ALTERNATE_FLAG = 1 << 23
+
+
+def decode_template_specs(bs):
+    """Placeholders of a template in order: [{'arg': index, 'flags': u32|None, 'width': n|None, 'precision': n|None}]."""
+    out = []
+    i = 0
+    arg = 0
+    bs = bytes(bs)
+    while i < len(bs):
+        n = bs[i]
+        i += 1
+        if n == 0:
+            break
+        if n < 0x80:
+            i += n
+        elif n == 0x80:
+            ln = int.from_bytes(bs[i:i + 2], "little")
+            i += 2 + ln
+        else:
+            sp = {"flags": None, "width": None, "precision": None}
+            if n & 1:
+                sp["flags"] = int.from_bytes(bs[i:i + 4], "little")
+                i += 4
+            if n & 2:
+                sp["width"] = int.from_bytes(bs[i:i + 2], "little")
+                i += 2
+            if n & 4:
+                sp["precision"] = int.from_bytes(bs[i:i + 2], "little")
+                i += 2
+            if n & 8:
+                arg = int.from_bytes(bs[i:i + 2], "little")
+                i += 2
+            sp["arg"] = arg
+            out.append(sp)
+            arg += 1
+    return out
+
+
+def format_specs(body, block):
+    """Specs of the placeholders of the fmt::Arguments::new call in `block`, aligned with the ('arg', ..) entries of format_parts."""
+    t = body.term(block)
+    if not t or t["k"] != "call" or not (t.get("callee") or "").endswith("::new") or "fmt::Arguments" not in t["callee"]:
+        return None
+    tl = _deref_chain(body, op_local(t["args"][0]))
+    d = _single_def(body, tl)
+    if d and d[2] == "assign" and d[3]["rv"]["k"] == "use" and "bytes" in d[3]["rv"]["o"]:
+        return decode_template_specs(d[3]["rv"]["o"]["bytes"])
+    return None
+
+
 def decode_template(bs):
     parts = []
     i = 0
